@@ -237,7 +237,7 @@ def renderCase (j : Json) : Except String Json := do
     | .error e => throw s!"http.conf does not parse: {reprStr e}"
   let ms ← Flat.dMatches (getStr j "matches")
   let t := NGF.RenderTie.tie http ms s
-  pure (Json.mkObj [("inFragment", t.inFragment), ("why", t.why), ("namesSafe", t.namesSafe), ("equal", t.equal), ("diff", t.diff),
+  pure (Json.mkObj [("inFragment", t.inFragment), ("why", t.why), ("namesSafe", t.namesSafe), ("portsOK", t.portsOK), ("equal", t.equal), ("diff", t.diff),
     ("matchesEqual", t.matchesEqual), ("matchesDiff", t.matchesDiff), ("dirs", t.dirs), ("servers", t.servers),
     ("locations", t.locations), ("splits", t.splits), ("keys", t.keys), ("ports", t.ports),
     ("dropped", Json.arr (t.dropped.map Json.str).toArray), ("wfModel", issuesJ t.wfModel), ("wfReal", issuesJ t.wfReal)])
